@@ -18,9 +18,9 @@ import (
 	"github.com/talostrading/sonic/sonicerrors"
 	"github.com/talostrading/sonic/sonicopts"
 
-	"sonicverif/sim"
 	shimnet "sonicverif/shim/net"
 	shimos "sonicverif/shim/os"
+	"sonicverif/sim"
 )
 
 // C13 No descriptor leaks, no foreign close, owners of in-flight operations stay alive.
@@ -65,10 +65,10 @@ type c13Env struct {
 	srv  *wsServer
 	// the window in which the constructor proper runs: faults are armed at
 	// begin, kernel calls are counted between begin and end
-	arm    func()
-	snap   [64]int
-	counts [64]int
-	manual bool
+	arm      func()
+	snap     [64]int
+	counts   [64]int
+	manual   bool
 	base     [3]int
 	haveBase bool
 }
